@@ -35,7 +35,7 @@ DTYPE_VARIANTS = {
     'int': ['int64', 'Int64', 'int8', 'uint8'],
     'bool': ['bool', 'boolean', 'object'],
     'date': ['datetime64[ns]', 'datetime64[s]', 'datetime64[us]', 'tz', 'dateobj'],
-    'string': ['object', 'category'],
+    'string': ['object', 'category', 'category_unused'],
 }
 
 
@@ -56,7 +56,7 @@ def variants_for(col):
                 continue
             if not has_null and var == 'object':
                 continue    # an object column of pure bools is fine too, but 'bool' covers it
-        if t == 'string' and var == 'category' and not any(v != NULL for v in vals):
+        if t == 'string' and var in ('category', 'category_unused') and not any(v != NULL for v in vals):
             continue        # an all-null categorical has no string categories
         if var in ('object', 'dateobj') and t in ('bool', 'date') and not any(v != NULL for v in vals):
             continue        # an all-null object column is a string column to tdda: nothing tells its type
@@ -110,6 +110,9 @@ def series(col, variant=None, pool=0):
         s = pd.Series(conc, dtype=object)
         if variant == 'category':
             return s.astype('category')
+        if variant == 'category_unused':
+            # categories no record uses (declared up front, or left behind by a filter) are not values of the column
+            return s.astype('category').cat.add_categories(['zz-unused-category', ''][:1 if '' in conc else 2])
         return s
     raise ValueError(t)
 
@@ -218,7 +221,7 @@ def abstract_discovery(field_dict, t, pool=0):
         'sign': field_dict.get('sign', 'none'),
         'max_nulls': field_dict.get('max_nulls', ABSENT),
         'no_duplicates': bool(field_dict.get('no_duplicates', False)),
-        'allowed': sorted((abstract_value('string', s, pool) or 'offgrid:%r' % (s,))
-                          for s in field_dict.get('allowed_values', [])),
+        'allowed': sorted(((abstract_value('string', s, pool) or 'offgrid:%r' % (s,))
+                           for s in field_dict.get('allowed_values', [])), key=lambda x_: (isinstance(x_, str), str(x_))),
     }
     return d
